@@ -1,22 +1,27 @@
 /-
   C13 — Parsing ignores meaningless layout and reports every bad file as a parsing error.   (PARTIAL by design)
 
-  Property theorems only (helper lemmas: Lemmas/Layout.lean, Lemmas/NumberedLines.lean).
+  Property theorems only (helper lemmas: Lemmas/Layout.lean, Lemmas/NumberedLines.lean, Lemmas/NumberedScale.lean, Lemmas/PreExpand.lean).
 
-  What is proved here, for ALL piece lists / line lists / configurations (no bound):
-    * Colang 2.x: the token stream that the lexer's layout rules + `lark.indenter.Indenter` hand to the LALR
+  What is proved here, for ALL piece lists / texts / line lists / configurations (no bound):
+    * Colang 2.x, pieces: the token stream that the lexer's layout rules + `lark.indenter.Indenter` hand to the LALR
       parser is unchanged by inserting blank lines, by trailing ignored blanks, by end-of-line comments, and
       (after erasing the text of `_`-terminals, which Lark drops from the tree) by scaling all indentation by k ≥ 1;
-    * Colang 1.0: `get_numbered_lines` yields the same texts/comments and proportionally scaled indentation
-      under the same edits (see the second half of this file);
+    * Colang 2.x, source text: the same four statements for CHARACTER text through the scanner `TextLayout.seg` (layout
+      terminals concrete, body terminals an oracle), and for the RAW FILE CONTENT through the `...` pre-parsing expansion
+      (`text_layout_*`, `source_*`), under explicit hypotheses about the oracle;
+    * Colang 1.0: `get_numbered_lines` yields the same records (text, indentation, comment) under blank lines and trailing
+      whitespace, and proportionally scaled indentation under scaling when multi-line-string openers are tight
+      (`numbered_lines_scale_partial`; the unrestricted statement is false of the code, counterexample below);
     * the error wrapper of `_parse_colang_files_recursively` with the repaired formatter always raises
-      `ColangParsingError` naming the file; with the pinned formatter it does so exactly on `PositionOk`.
+      `ColangParsingError` naming the file — instantiated at every raise site found by the static scan
+      (`errwrap_total_raise_sites`); with the pinned formatter it does so exactly on `PositionOk`.
 
   What is NOT proved (handled by search/correspondence only, see design_notes/C13.md):
     * equal token streams ⇒ equal flows: rests on Lark's LALR engine + `ColangTransformer` being a function of
       the token stream (types, and texts of non-`_` terminals);
-    * edits *inside* a token (`_AND`/`_OR` absorb the preceding line break; multi-line strings) are outside
-      these statements;
+    * the tokenizer oracle itself (regexes of the body terminals, contextual lexer); edits *inside* a token (`_AND`/`_OR`
+      absorb the preceding line break; multi-line strings) are outside these statements;
     * the 1 900-line Colang 1.0 parser only *comparing* indentation levels of `get_numbered_lines`' output;
     * "never a hang".
 
@@ -26,7 +31,9 @@
 -/
 import NemoVerif.Lemmas.Layout
 import NemoVerif.Lemmas.NumberedLines
+import NemoVerif.Lemmas.NumberedScale
 import NemoVerif.Lemmas.PreExpand
+import NemoVerif.Lemmas.TextLayout
 import NemoVerif.Models.ErrWrap
 
 namespace NemoVerif.C13
@@ -59,6 +66,11 @@ theorem layout_blank_at_start (c : Cfg) (blank : List Ws) (hb : ∀ w ∈ blank,
   | ok st2 =>
     simp only []
     cases go c none st2 post <;> simp
+
+/-- CRLF line ends: turning any set of `"\n"` into `"\r\n"` (or back) - the whole file, or any part of it - leaves the token stream
+    unchanged (line-break pieces outside tokens; the `\r` is part of `_NEWLINE: (/\r?\n[\t ]*/)+`). -/
+theorem layout_crlf (c : Cfg) (f : Bool → Bool) (ps : List Piece) : layout c (ps.map (setCR f)) = layout c ps :=
+  go_setCR c f ps none St.init
 
 /-- Trailing whitespace: blanks the lexer ignores (`%ignore`), appended to any line, change nothing. -/
 theorem layout_trailing (c : Cfg) (pre post : List Piece) (cr : Bool) (trail : List Ws)
@@ -142,10 +154,126 @@ theorem layout_scale (c : Cfg) (k : Nat) (hk : 1 ≤ k) (ps : List Piece) :
     intro t _
     cases t <;> simp [scaleTok, erase]
 
+/-- Layout INSIDE a keyword token: `_AND` / `_OR` (and every other terminal whose name starts with `_`) absorb the line break in front of a
+    continuation line (`(\r?\n[\t ]*)+and[ \t]`), so a blank line, trailing blanks, CRLF or a rescaled indentation there change only the TEXT of
+    that token - which Lark filters out of the tree: what the LALR parser can see is the same, whatever the two texts are. -/
+theorem layout_underscore_token_text (c : Cfg) (pre post : List Piece) (ty v v' : String) (h : ty.startsWith "_" = true) :
+    layoutE c (pre ++ .tok ty v :: post) = layoutE c (pre ++ .tok ty v' :: post) := by
+  rw [layoutE_eq_goE, layoutE_eq_goE]
+  exact goE_congr c _ _ (goE_tok_text c ty v v' h post) pre none St.init
+
+/-- non-vacuity: the continuation keywords are `_`-terminals. -/
+example : "_AND".startsWith "_" = true ∧ "_OR".startsWith "_" = true := by simp
+
 /-- non-vacuity / sanity: scaling by 0 is NOT harmless (the hypothesis k ≥ 1 is needed). -/
 example : layoutE pinnedCfg (scaleP 0 false [.tok "_FLOW" "flow", .nl false, .ws .sp, .tok "NAME" "b", .nl false]) ≠
     layoutE pinnedCfg [.tok "_FLOW" "flow", .nl false, .ws .sp, .tok "NAME" "b", .nl false] := by
   simp [layoutE, layout, scaleP, go, flush, handleNL, bump, pinnedCfg, St.init, width, top, popWhile, finalDedents, Except.bind, Except.map, erase]
+
+/-! ## Colang 2.x layout, stated for SOURCE TEXT (characters), the tokenizer of body terminals being an oracle
+
+  `TextLayout.seg o` is the character-level scanner (`_NEWLINE` runs, blanks, `COMMENT`, CRLF concretely; body terminals by the
+  oracle `o : remaining text → Option (type, length)`), `lexLayout c o text` = scanner, then lexer layout rules + indenter.
+  Hypotheses of the theorems below, all about the oracle (= the real lexer's regex matching, tied by correspondence:
+  `C13.textseg` vs the real lexer's segmentation on every 2.x case, original and edited text):
+    * `hE` / `hO`: the part of the text in front of the edit (`pre`) is tokenized in the same way in the edited and in the original
+      text, up to a token boundary (`skip = 0`) — the edit does not reach back into a token (`and` + blank → `_AND`, an open string);
+    * `ho…`: no body terminal claims the line break at the edit (`_AND` / `_OR` absorb the line break in front of a continuation
+      line — that case is inside a token, outside these theorems);
+    * `NoBlankStart` / `NoHashStart`: no body terminal begins with a blank / with `#` (checked by the translator on the first-character
+      sets of all terminals of colang.lark). -/
+
+open NemoVerif.TextLayout in
+/-- Source text: a blank line (any blanks, LF or CRLF, after a line ending in LF or CRLF) inserted where a line break is. -/
+theorem text_layout_blank (c : Cfg) (o : Oracle) (pre post : TextLayout.Str) (cr1 cr2 cr3 : Bool) (blank : List Ws)
+    (P : List Piece) (b : Bool)
+    (hE : segPre o false 0 pre (eol cr1 ++ (wsChars blank ++ (eol cr2 ++ post))) = .ok (P, b, 0))
+    (hO : segPre o false 0 pre (eol cr3 ++ post) = .ok (P, b, 0))
+    (hoE : b = false → o (eol cr1 ++ (wsChars blank ++ (eol cr2 ++ post))) = none)
+    (hoO : b = false → o (eol cr3 ++ post) = none) :
+    lexLayout c o (pre ++ (eol cr1 ++ (wsChars blank ++ (eol cr2 ++ post)))) = lexLayout c o (pre ++ (eol cr3 ++ post)) := by
+  unfold lexLayout
+  rw [seg_append, seg_append, hE, hO]
+  simp only [glue]
+  have hb : ∀ (cr : Bool) (s : TextLayout.Str), (b = false → o (eol cr ++ s) = none) →
+      seg o b 0 (eol cr ++ s) = (seg o true 0 s).map (.nl cr :: ·) := by
+    intro cr s h
+    cases b with
+    | true => exact seg_run_eol o cr s
+    | false => exact seg_start_eol o cr s (h rfl)
+  rw [hb cr1 _ hoE, hb cr3 _ hoO, seg_run_ws, seg_run_eol]
+  cases seg o true 0 post with
+  | error e => rfl
+  | ok R =>
+    simp only [Except.map, Except.bind]
+    rw [layout_blank, layout_nl_flag c P R cr2 cr3]
+
+open NemoVerif.TextLayout in
+/-- Source text: trailing blanks that the lexer ignores, before a line break. -/
+theorem text_layout_trailing (c : Cfg) (o : Oracle) (hnb : NoBlankStart o) (pre post : TextLayout.Str) (cr : Bool) (trail : List Ws)
+    (ht : ∀ w ∈ trail, c.ign w = true) (P : List Piece)
+    (hE : segPre o false 0 pre (wsChars trail ++ (eol cr ++ post)) = .ok (P, false, 0))
+    (hO : segPre o false 0 pre (eol cr ++ post) = .ok (P, false, 0))
+    (ho : o (eol cr ++ post) = none) :
+    lexLayout c o (pre ++ (wsChars trail ++ (eol cr ++ post))) = lexLayout c o (pre ++ (eol cr ++ post)) := by
+  unfold lexLayout
+  rw [seg_append, seg_append, hE, hO]
+  simp only [glue]
+  rw [seg_start_ws o hnb, seg_start_eol o cr post ho]
+  cases seg o true 0 post with
+  | error e => rfl
+  | ok R =>
+    simp only [Except.map, Except.bind]
+    exact layout_trailing c P R cr trail ht
+
+open NemoVerif.TextLayout in
+/-- Source text: an end-of-line comment (`#` + anything but a line break) after the last token of a line, ignored blanks in between. -/
+theorem text_layout_comment_eol (c : Cfg) (o : Oracle) (hnb : NoBlankStart o) (hnh : NoHashStart o) (pre post cmt : TextLayout.Str)
+    (hc : ∀ ch ∈ cmt, ch ≠ '\n') (gap : List Ws) (hg : ∀ w ∈ gap, c.ign w = true) (P : List Piece) (ty v : String)
+    (hE : segPre o false 0 pre (wsChars gap ++ ('#' :: cmt ++ '\n' :: post)) = .ok (P ++ [.tok ty v], false, 0))
+    (hO : segPre o false 0 pre ('\n' :: post) = .ok (P ++ [.tok ty v], false, 0)) :
+    lexLayout c o (pre ++ (wsChars gap ++ ('#' :: cmt ++ '\n' :: post))) = lexLayout c o (pre ++ '\n' :: post) := by
+  unfold lexLayout
+  rw [seg_append, seg_append, hE, hO]
+  simp only [glue]
+  rw [seg_start_ws o hnb, seg_start_comment o hnh cmt post hc]
+  -- in the original text the blanks of `gap` are not there at all: `layout_comment_eol` + `layout_trailing`-style absorption
+  cases seg o false 0 ('\n' :: post) with
+  | error e => rfl
+  | ok R =>
+    simp only [Except.map, Except.bind]
+    have h1 := layout_comment_eol c P R ty v gap hg (String.ofList ('#' :: cmt))
+    have h2 : layout c (P ++ .tok ty v :: (wsPieces gap ++ R)) = layout c (P ++ .tok ty v :: R) := by
+      unfold layout
+      apply go_congr
+      intro rs st
+      simp only [go, go_ign_ws c gap hg]
+    simpa [List.append_assoc] using h1.trans h2
+
+open NemoVerif.TextLayout in
+example : NoBlankStart toyOracle ∧ NoHashStart toyOracle := by
+  constructor
+  · intro w t; cases w <;> rfl
+  · intro t; rfl
+
+open NemoVerif.TextLayout in
+/-- non-vacuity of `text_layout_blank` (and of `text_layout_trailing`): `a⏎·⏎a⏎` vs `a⏎a⏎` with the toy tokenizer -/
+example : segPre toyOracle false 0 ['a'] (eol false ++ (wsChars [.sp] ++ (eol false ++ ['a', '\n']))) = .ok ([.tok "NAME" "a"], false, 0) ∧
+    segPre toyOracle false 0 ['a'] (eol false ++ ['a', '\n']) = .ok ([.tok "NAME" "a"], false, 0) ∧
+    segPre toyOracle false 0 ['a'] (wsChars [.sp] ++ (eol false ++ ['a', '\n'])) = .ok ([.tok "NAME" "a"], false, 0) ∧
+    toyOracle (eol false ++ (wsChars [.sp] ++ (eol false ++ ['a', '\n']))) = none ∧ toyOracle (eol false ++ ['a', '\n']) = none := by
+  refine ⟨by rfl, by rfl, by rfl, by rfl, by rfl⟩
+
+open NemoVerif.TextLayout in
+/-- non-vacuity of `text_layout_comment_eol`: `a·#c⏎` vs `a⏎` -/
+example : segPre toyOracle false 0 ['a'] (wsChars [.sp] ++ ('#' :: ['c'] ++ '\n' :: [])) = .ok ([] ++ [.tok "NAME" "a"], false, 0) ∧
+    segPre toyOracle false 0 ['a'] ('\n' :: []) = .ok ([] ++ [.tok "NAME" "a"], false, 0) := by
+  refine ⟨by rfl, by rfl⟩
+
+open NemoVerif.TextLayout in
+/-- sanity: the whole character-level pipeline on `a⏎·⏎a⏎` -/
+example : lexLayout pinnedCfg toyOracle ("a\n \na\n".toList) = .ok [.body "NAME" "a", .nl [], .body "NAME" "a", .nl []] := by
+  rfl
 
 /-! ## Colang 1.0: `get_numbered_lines` -/
 
@@ -169,6 +297,111 @@ example : ∃ st' out, runPre NumberedLines.St.init [['d', 'e', 'f', ' ', 'a'], 
   decide
 
 open NemoVerif.NumberedLines in
+/-- Positive specification of what the comment above a statement means: a `# c` line, then any number of blank lines (any `str.isspace`
+    characters), then an ordinary statement - the statement's record carries the comment `c` (stripped), and the comment is used up.
+    (`$v = ...` below a comment gets the comment as `instructions`; a bot step gets it as generation instructions.) -/
+theorem numbered_lines_comment_attaches (pre post blanks : List Str) (cl c stmt : Str)
+    (st' : NumberedLines.St) (out : List Rec) (hpre : runPre NumberedLines.St.init pre = .ok (st', out))
+    (hB : st'.atBoundary = true) (hml : st'.mlComment = false) (hc0 : st'.comment = none)
+    (hcl : strip cl = '#' :: c) (hb : ∀ b ∈ blanks, strip b = []) (hs : plainStmt (strip stmt) = true) :
+    numbered (pre ++ cl :: (blanks ++ stmt :: post)) =
+      (run { st' with comment := none, pending := none } post).map fun rest =>
+        out ++ { text := firstPart (strip stmt), indentation := lead stmt, comment := some (strip c) } :: rest :=
+  numbered_comment_attaches pre post blanks cl c stmt st' out hpre hB hml hc0 hcl hb hs
+
+open NemoVerif.NumberedLines in
+/-- non-vacuity: `define flow a` / `  # say hi` / `` / `  bot x` -/
+example : ∃ st' out, runPre NumberedLines.St.init ["define flow a".toList] = .ok (st', out) ∧ st'.atBoundary = true ∧ st'.mlComment = false ∧ st'.comment = none ∧
+    strip "  # say hi".toList = '#' :: " say hi".toList ∧ plainStmt (strip "  bot x".toList) = true := by
+  refine ⟨_, _, rfl, ?_, ?_, ?_, ?_, ?_⟩ <;> decide
+
+
+open NemoVerif.NumberedLines in
+/-- Positive specification, general form: a block of `# …` comment lines and blank lines in ANY order, then an ordinary statement - the
+    statement's record carries the gathered comment (`commentOf`: consecutive comment lines joined with `"\n"`), and by `commentOf_blank`
+    the blank lines of the block are irrelevant for it. -/
+theorem numbered_lines_comments_attach (pre post block : List Str) (stmt : Str)
+    (st' : NumberedLines.St) (out : List Rec) (hpre : runPre NumberedLines.St.init pre = .ok (st', out))
+    (hB : st'.atBoundary = true) (hml : st'.mlComment = false)
+    (hblock : ∀ l ∈ block, strip l = [] ∨ ∃ c, strip l = '#' :: c) (hs : plainStmt (strip stmt) = true) :
+    numbered (pre ++ (block ++ stmt :: post)) =
+      (run { st' with comment := none, pending := none } post).map fun rest =>
+        out ++ { text := firstPart (strip stmt), indentation := lead stmt, comment := commentOf st'.comment block } :: rest :=
+  numbered_comments_attach pre post block stmt st' out hpre hB hml hblock hs
+
+open NemoVerif.NumberedLines in
+/-- non-vacuity + the gathered comment of `# Greet the user,` / `` / `# warmly.` (finite fact). -/
+example : (∀ l ∈ ["  # Greet the user,".toList, [], "  # warmly.".toList], strip l = [] ∨ ∃ c, strip l = '#' :: c) ∧
+    commentOf none ["  # Greet the user,".toList, [], "  # warmly.".toList] = some "Greet the user,\nwarmly.".toList := by
+  refine ⟨?_, by decide⟩
+  intro l hl
+  simp only [List.mem_cons, List.mem_nil_iff, or_false] at hl
+  rcases hl with rfl | rfl | rfl
+  · exact Or.inr ⟨" Greet the user,".toList, by decide⟩
+  · exact Or.inl (by decide)
+  · exact Or.inr ⟨" warmly.".toList, by decide⟩
+
+open NemoVerif.NumberedLines in
+/-- … and with one-line `\"\"\"…\"\"\"` comments in the block as well (`commentOfB`: such a comment REPLACES what was gathered so far, `#` lines after
+    it are appended) - again wherever the blank lines are. -/
+theorem numbered_lines_comment_block_attach (pre post block : List Str) (stmt : Str)
+    (st' : NumberedLines.St) (out : List Rec) (hpre : runPre NumberedLines.St.init pre = .ok (st', out))
+    (hB : st'.atBoundary = true) (hml : st'.mlComment = false)
+    (hblock : ∀ l ∈ block, strip l = [] ∨ (∃ c, strip l = '#' :: c) ∨ ∃ body, oneLineBlock (strip l) = some body)
+    (hs : plainStmt (strip stmt) = true) :
+    numbered (pre ++ (block ++ stmt :: post)) =
+      (run { st' with comment := none, pending := none } post).map fun rest =>
+        out ++ { text := firstPart (strip stmt), indentation := lead stmt, comment := commentOfB st'.comment block } :: rest :=
+  numbered_comment_block_attach pre post block stmt st' out hpre hB hml hblock hs
+
+open NemoVerif.NumberedLines in
+/-- non-vacuity (finite facts): a one-line block is recognised and replaces the `#` comment gathered before it. -/
+example : oneLineBlock "\"\"\"Greet warmly\"\"\"".toList = some "Greet warmly".toList ∧
+    commentOfB none ["# old".toList, [], "  \"\"\"Greet warmly\"\"\"".toList, "# and briefly".toList] = some "Greet warmly\nand briefly".toList := by
+  decide
+
+open NemoVerif.NumberedLines in
+/-- Positive specification with a multi-line `\"\"\"` comment block in front: opener `\"\"\"t`, middle lines, closer `u\"\"\"` - with blank lines anywhere
+    inside the block - then a block of blank / `#` / one-line `\"\"\"` lines, then an ordinary statement: the statement's record carries
+    `commentOfB (some (t ⏎ middle lines ⏎ u)) block`; the blank lines inside the multi-line block are dropped (`blockBody`). -/
+theorem numbered_lines_ml_comment_attach (pre post mids block : List Str) (openL closeL t u stmt : Str)
+    (st' : NumberedLines.St) (out : List Rec) (hpre : runPre NumberedLines.St.init pre = .ok (st', out))
+    (hB : st'.atBoundary = true) (hml : st'.mlComment = false)
+    (ho : openLine (strip openL) = some t) (hm : ∀ l ∈ mids, strip l = [] ∨ ∃ p, midLine (strip l) = some p)
+    (hc : closeLine (strip closeL) = some u)
+    (hblock : ∀ l ∈ block, strip l = [] ∨ (∃ c, strip l = '#' :: c) ∨ ∃ body, oneLineBlock (strip l) = some body)
+    (hs : plainStmt (strip stmt) = true) :
+    numbered ((pre ++ openL :: (mids ++ [closeL])) ++ (block ++ stmt :: post)) =
+      (run { st' with mlComment := false, comment := none, pending := none } post).map fun rest =>
+        out ++ { text := firstPart (strip stmt), indentation := lead stmt,
+                 comment := commentOfB (some (blockBody t mids ++ '\n' :: u)) block } :: rest := by
+  have hB' : ({ st' with mlComment := false, comment := some (blockBody t mids ++ '\n' :: u) } : NumberedLines.St).atBoundary = true := by
+    simpa [NumberedLines.St.atBoundary] using hB
+  have hpre' : runPre NumberedLines.St.init (pre ++ openL :: (mids ++ [closeL])) =
+      .ok ({ st' with mlComment := false, comment := some (blockBody t mids ++ '\n' :: u) }, out) := by
+    rw [runPre_append, hpre]
+    simp only [runPre_mlBlock st' openL closeL t u mids hB hml ho hm hc, List.append_nil]
+  exact numbered_lines_comment_block_attach _ post block stmt _ out hpre' hB' rfl hblock hs
+
+
+open NemoVerif.NumberedLines in
+/-- non-vacuity (finite facts) -/
+example : openLine "\"\"\"First line".toList = some "First line".toList ∧ midLine "more".toList = some "more".toList ∧
+    closeLine "end.\"\"\"".toList = some "end.".toList ∧
+    blockBody "First line".toList ["  more".toList, [], "  text".toList] = "First line\nmore\ntext".toList := by decide
+
+
+open NemoVerif.NumberedLines in
+/-- kernel-checked witnesses (finite facts) that the hypothesis `atBoundary` of `numbered_lines_blank` is needed: a blank line between a line
+    ending in ` or` and its continuation, or inside a multi-line string, changes the records. -/
+theorem numbered_lines_blank_boundary_witness :
+    (numbered [['a', ' ', 'o', 'r'], ['b']]).toOption.map (List.map Rec.text) = some [['a', ' ', 'o', 'r', ' ', 'b']] ∧
+    (numbered [['a', ' ', 'o', 'r'], [], ['b']]).toOption.map (List.map Rec.text) = some [['a', ' ', 'o', 'r', ' '], ['b']] ∧
+    (numbered [['"', 'a'], ['b', '"']]).toOption.map (List.map Rec.text) = some [['"', 'a', '\n', 'b', '"']] ∧
+    (numbered [['"', 'a'], [], ['b', '"']]).toOption.map (List.map Rec.text) = some [['"', 'a', '\n', '\n', 'b', '"']] := by
+  decide
+
+open NemoVerif.NumberedLines in
 /-- Trailing whitespace (any `str.isspace` characters, tabs and `\r` included) appended to any number of lines
     changes nothing, provided the line is not the first line of a multi-line string (`"…` without closing quote —
     there the blanks are inside the string, and `multiline_indentation` counts them). -/
@@ -183,6 +416,64 @@ theorem numbered_lines_trailing (ls ls' : List Str)
   exact (step_trailing st a ws hws hno).symm
 
 open NemoVerif.NumberedLines in
+/-- Trailing whitespace on ANY SUBSET of the lines (the others - first lines of multi-line strings included - untouched): same records. -/
+theorem numbered_lines_trailing_some (ls ls' : List Str)
+    (h : Pointwise (fun l l' => l' = l ∨ ∃ ws, (∀ c ∈ ws, isPyWs c = true) ∧ l' = l ++ ws ∧ isOpener (strip l) = false) ls ls') :
+    numbered ls' = numbered ls := by
+  unfold numbered
+  symm
+  apply run_pointwise _ _ ls ls' h
+  intro st a b' hab
+  rcases hab with rfl | ⟨ws, hws, rfl, hno⟩
+  · rfl
+  · exact (step_trailing st a ws hws hno).symm
+
+open NemoVerif.NumberedLines in
+/-- Colang 1.0, FILE CONTENT (`content.split("\n")` included): a blank line (any `str.isspace` characters but a line break) inserted after
+    any line at a loop boundary leaves every record unchanged. -/
+theorem numbered_content_blank (pre post b : Str) (hb : strip b = []) (hnl : ∀ ch ∈ b, ch ≠ '\n')
+    (st' : NumberedLines.St) (out : List Rec) (hpre : runPre NumberedLines.St.init (splitNL pre) = .ok (st', out)) (hB : st'.atBoundary = true) :
+    numberedText (pre ++ '\n' :: (b ++ '\n' :: post)) = numberedText (pre ++ '\n' :: post) := by
+  unfold numberedText
+  rw [splitNL_append, splitNL_append, splitNL_append, splitNL_noNL b hnl]
+  exact numbered_lines_blank (splitNL pre) (splitNL post) b hb st' out hpre hB
+
+open NemoVerif.NumberedLines in
+/-- Colang 1.0, FILE CONTENT: trailing whitespace (no line break) appended to any line `l` that is not the first line of a multi-line string. -/
+theorem numbered_content_trailing (x y l ws : Str) (hl : ∀ ch ∈ l, ch ≠ '\n') (hws : ∀ c ∈ ws, isPyWs c = true) (hwnl : ∀ ch ∈ ws, ch ≠ '\n')
+    (hno : isOpener (strip l) = false) :
+    numberedText (x ++ '\n' :: (l ++ ws ++ '\n' :: y)) = numberedText (x ++ '\n' :: (l ++ '\n' :: y)) := by
+  unfold numberedText
+  have h1 : ∀ ch ∈ l ++ ws, ch ≠ '\n' := by
+    intro ch hch
+    rcases List.mem_append.1 hch with h | h
+    · exact hl ch h
+    · exact hwnl ch h
+  rw [splitNL_append, splitNL_append, splitNL_append, splitNL_append, splitNL_noNL _ h1, splitNL_noNL _ hl]
+  apply numbered_lines_trailing_some
+  exact pointwise_one _ (fun _ => Or.inl rfl) (splitNL x) (splitNL y) l (l ++ ws) (Or.inr ⟨ws, hws, rfl, hno⟩)
+
+open NemoVerif.NumberedLines in
+/-- non-vacuity of `numbered_content_blank` / `numbered_content_trailing`: content `def a⏎  u h` is at a boundary after its two lines;
+    `  u h` is not the first line of a multi-line string. -/
+example : (∃ st' out, runPre NumberedLines.St.init (splitNL ['d', 'e', 'f', ' ', 'a', '\n', ' ', ' ', 'u', ' ', 'h']) = .ok (st', out) ∧ st'.atBoundary = true) ∧
+    isOpener (strip [' ', ' ', 'u', ' ', 'h']) = false := by
+  refine ⟨⟨_, _, rfl, ?_⟩, ?_⟩ <;> decide
+
+open NemoVerif.NumberedLines in
+/-- Colang 1.0: CRLF line ends (a `"\r"` after every line, except after the first line of a multi-line string) change no record. -/
+theorem numbered_lines_crlf (ls : List Str) : numbered (ls.map addCR) = numbered ls := by
+  apply numbered_lines_trailing_some
+  apply pointwise_map
+  intro l
+  unfold addCR
+  by_cases h : isOpener (strip l) = true
+  · simp [h]
+  · right
+    refine ⟨['\r'], by decide, by simp [h], by simpa using h⟩
+
+
+open NemoVerif.NumberedLines in
 /-- kernel-checked witness (finite fact) that the exclusion above is needed: trailing blanks on the first line of a
     multi-line string change the record's `indentation`. -/
 theorem numbered_lines_trailing_opener_witness :
@@ -190,11 +481,60 @@ theorem numbered_lines_trailing_opener_witness :
     (numbered [[' ', ' ', '"', 'a', ' ', ' '], [' ', ' ', 'b', '"']]).toOption.map (List.map Rec.indentation) = some [4] := by
   decide
 
-/-
-  Not proved for 1.0 (searched only): scaling — `indentation` of ordinary records scales with the leading spaces
-  (`lead`), but the multi-line-string record's `multiline_indentation` also counts trailing blanks, and what the
-  1 900-line parser does with the numbers (it only compares them) is outside the model.
--/
+open NemoVerif.NumberedLines in
+/-- Colang 1.0, indentation × k at the level of `get_numbered_lines` — the exact statement that is true of the code: for EVERY factor
+    `k` (even 0) and every line list, scaling the leading spaces of every line multiplies every record's `indentation` by `k` and changes
+    nothing else (texts, comments, number of records, the `IndexError` / `TypeError` raised), PROVIDED every line that could open a
+    multi-line string is *tight* (`openerTight`: only spaces in front, nothing behind the text).
+    Full statement (without the hypothesis) is FALSE of the code: `multiline_indentation = len(raw) - len(stripped)` also counts
+    trailing blanks and leading tabs, which do not scale — see `numbered_lines_scale_as_is_counterexample`.
+    What the 1 900-line parser does with the numbers (it compares them: `>`, `<`, `==` between records, `> 0`) is outside the model. -/
+theorem numbered_lines_scale_partial (k : Nat) (ls : List Str) (h : ∀ l ∈ ls, openerTight l = true) :
+    numbered (ls.map (scaleLine k)) = (numbered ls).map (List.map (scaleRec k)) :=
+  numbered_scale k ls h
+
+open NemoVerif.NumberedLines in
+/-- Colang 1.0, indentation × k, UNCONDITIONAL part: for every factor and every line list, scaling never changes the texts, the comments, the
+    number of records or the error raised - only the indentation NUMBERS can change (and `numbered_lines_scale_partial` says how: × k, when
+    the first lines of multi-line strings are tight). -/
+theorem numbered_lines_scale_erased (k : Nat) (ls : List Str) :
+    eraseOut (numbered (ls.map (scaleLine k))) = eraseOut (numbered ls) :=
+  numbered_scale_erased k ls
+
+open NemoVerif.NumberedLines in
+/-- non-vacuity: a two-line string whose first line is tight (`  "a` / `  b"`), scaled by 3: indentation 2 ↦ 6. -/
+example : (∀ l ∈ [[' ', ' ', '"', 'a'], [' ', ' ', 'b', '"']], openerTight l = true) ∧
+    (numbered ([[' ', ' ', '"', 'a'], [' ', ' ', 'b', '"']].map (scaleLine 3))).toOption.map (List.map Rec.indentation) = some [6] := by
+  decide
+
+open NemoVerif.NumberedLines in
+/-- Colang 1.0, FILE CONTENT: scaling the leading spaces of every line by any `k` multiplies every record's indentation by `k` and changes
+    nothing else, provided every possible first line of a multi-line string is tight (see `numbered_lines_scale_partial`). -/
+theorem numbered_content_scale_partial (k : Nat) (content : Str) (h : ∀ l ∈ splitNL content, openerTight l = true) :
+    numberedText (scaleContent k content) = (numberedText content).map (List.map (scaleRec k)) := by
+  unfold numberedText scaleContent
+  rw [splitNL_joinNL _ (by simp [splitNL_ne_nil]) (by
+    intro l hl
+    obtain ⟨l0, hl0, rfl⟩ := List.mem_map.1 hl
+    exact scaleLine_noNL k l0 (splitNL_noNL_mem content l0 hl0))]
+  exact numbered_scale k (splitNL content) h
+
+
+open NemoVerif.NumberedLines in
+/-- non-vacuity: content `def a⏎  "x⏎  y"` (a tight multi-line string) scaled by 2. -/
+example : (∀ l ∈ splitNL "def a\n  \"x\n  y\"".toList, openerTight l = true) ∧
+    scaleContent 2 "def a\n  \"x\n  y\"".toList = "def a\n    \"x\n    y\"".toList := by
+  decide
+
+open NemoVerif.NumberedLines in
+/-- kernel-checked counterexample (finite fact) to the statement without `openerTight`: `  "a␠␠` / `  b"` has indentation 4
+    (2 leading + 2 trailing blanks); scaled by 2 the code gives 6, the scaled record would need 8.  (Replayed on the real
+    `get_numbered_lines` by the corpus case `v1_scale_opener_trailing`; the flows are the same - the 1.0 parser only compares.) -/
+theorem numbered_lines_scale_as_is_counterexample :
+    (numbered [[' ', ' ', '"', 'a', ' ', ' '], [' ', ' ', 'b', '"']]).toOption.map (List.map Rec.indentation) = some [4] ∧
+    (numbered ([[' ', ' ', '"', 'a', ' ', ' '], [' ', ' ', 'b', '"']].map (scaleLine 2))).toOption.map (List.map Rec.indentation) = some [6] ∧
+    ((numbered [[' ', ' ', '"', 'a', ' ', ' '], [' ', ' ', 'b', '"']]).map (List.map (scaleRec 2))).toOption.map (List.map Rec.indentation) = some [8] := by
+  decide
 
 /-! ## Colang 2.x: the line-based pre-parsing expansion of `...` (runs before the lexer) -/
 
@@ -234,6 +574,191 @@ theorem preexpand_trailing_witness :
     (preExpand [[' ', ' ', '.', '.', '.', ' ', ' ']]).length = 8 ∧ (preExpand [[' ', ' ', '.', '.', '.', ' ', ' ']]).getLast? = some [' ', ' '] := by
   decide
 
+open NemoVerif.TextLayout in
+/-- Source text: uniform scaling of the indentation by any k ≥ 1 — every blank of the run of blanks directly after a line break repeated
+    k times (`scaleText`) — gives the same token stream up to the text of `_`-terminals, errors included.  `ScaleOK` (explicit, about the two
+    tokenizers along the text): at every suffix the tokenizer of the scaled text decides like the tokenizer of the original text, and no body
+    token contains a line break or runs past the end (multi-line strings and `and`/`or` continuation tokens are outside). -/
+theorem text_layout_scale (c : Cfg) (k : Nat) (hk : 1 ≤ k) (o o' : Oracle) (text : TextLayout.Str) (hok : ScaleOK k o o' text) :
+    (seg o' false 0 (scaleText k false text)).bind (layoutE c) = (seg o false 0 text).bind (layoutE c) := by
+  rw [seg_scale k o o' text.length text (Nat.le_refl _) false hok]
+  cases seg o false 0 text with
+  | error e => rfl
+  | ok ps => simp only [Except.map, Except.bind]; exact layout_scale c k hk ps
+
+open NemoVerif.TextLayout in
+/-- non-vacuity: the toy tokenizer satisfies `ScaleOK` on every text; `a⏎·a⏎` scaled by 3 is `a⏎···a⏎`. -/
+example : ScaleOK 3 toyOracle toyOracle "a\n a\n".toList ∧ scaleText 3 false "a\n a\n".toList = "a\n   a\n".toList :=
+  ⟨toyOracle_scaleOK 3 _, by decide⟩
+
+/-! ### … composed with the line-based pre-parsing expansion: statements about the RAW FILE CONTENT
+
+  `TextLayout.source c o lines` = `_apply_pre_parsing_expansions` (on `content.split("\n")`) → `"\n".join` → `+ "\n"` (as
+  `get_parsing_tree` does) → character-level scanner → lexer layout rules + indenter.  The hypotheses speak about the tokenizer oracle on
+  the EXPANDED text (what the lexer really gets). -/
+
+open NemoVerif.TextLayout in
+/-- Raw file content: a blank line (blanks and tabs, optionally a `\r`: a CRLF file) inserted between two lines - after ANY line, be it a
+    `...` statement that is rewritten into seven lines, a docstring line, anything - does not change the token stream.
+    `hA`: the expanded text in front of the insertion point is `pre0` + LF/CRLF (i.e. there is at least one line in front). -/
+theorem source_blank_line (c : Cfg) (o : Oracle) (preL postL : List TextLayout.Str) (blank : List Ws) (cr1 cr2 : Bool)
+    (pre0 : TextLayout.Str) (P : List Piece) (b : Bool)
+    (hA : unlines (PreExpand.runPre false preL).2 = pre0 ++ eol cr1)
+    (hE : segPre o false 0 pre0 (eol cr1 ++ (wsChars blank ++ (eol cr2 ++ unlines (PreExpand.run (PreExpand.runPre false preL).1 postL)))) = .ok (P, b, 0))
+    (hO : segPre o false 0 pre0 (eol cr1 ++ unlines (PreExpand.run (PreExpand.runPre false preL).1 postL)) = .ok (P, b, 0))
+    (hoE : b = false → o (eol cr1 ++ (wsChars blank ++ (eol cr2 ++ unlines (PreExpand.run (PreExpand.runPre false preL).1 postL)))) = none)
+    (hoO : b = false → o (eol cr1 ++ unlines (PreExpand.run (PreExpand.runPre false preL).1 postL)) = none) :
+    source c o (preL ++ (wsChars blank ++ crChars cr2) :: postL) = source c o (preL ++ postL) := by
+  have hne : (PreExpand.runPre false preL).2 ≠ [] := by
+    intro h
+    rw [h] at hA
+    cases cr1 <;> simp [unlines, eol] at hA
+  have hb := preexpand_blank false preL postL (wsChars blank ++ crChars cr2) (strip_blank_line blank cr2)
+  unfold source PreExpand.preExpand
+  rw [hb.1, hb.2, joinNL_nl _ (by simp), joinNL_nl _ (by simp [hne])]
+  rw [unlines_append, unlines_append, hA]
+  simp only [unlines]
+  have := text_layout_blank c o pre0 (unlines (PreExpand.run (PreExpand.runPre false preL).1 postL)) cr1 cr2 cr1 blank P b hE hO hoE hoO
+  rw [← crChars_nl cr2] at this
+  simpa [List.append_assoc] using this
+
+
+open NemoVerif.TextLayout in
+/-- non-vacuity of `source_blank_line`: file `a⏎a` gets a blank line `·` in between (toy tokenizer). -/
+example : unlines (PreExpand.runPre false [['a']]).2 = ['a'] ++ eol false ∧
+    segPre toyOracle false 0 ['a'] (eol false ++ (wsChars [.sp] ++ (eol false ++ unlines (PreExpand.run (PreExpand.runPre false [['a']]).1 [['a']])))) = .ok ([.tok "NAME" "a"], false, 0) ∧
+    segPre toyOracle false 0 ['a'] (eol false ++ unlines (PreExpand.run (PreExpand.runPre false [['a']]).1 [['a']])) = .ok ([.tok "NAME" "a"], false, 0) := by
+  refine ⟨by rfl, by rfl, by rfl⟩
+
+open NemoVerif.TextLayout in
+/-- Raw file content: trailing blanks that the lexer ignores, appended to ANY line `l0` (in front of the `\r` of a CRLF file) - the
+    `...` statement included: the blanks end up behind the last of the lines it is rewritten to - do not change the token stream.
+    `hX`: `l0` is rewritten to the lines `X0 ++ [xl]` (such a decomposition always exists: `PreExpand.step_snd_split`). -/
+theorem source_trailing (c : Cfg) (o : Oracle) (hnb : NoBlankStart o) (preL postL : List TextLayout.Str) (l0 : TextLayout.Str)
+    (trail : List Ws) (cr : Bool) (ht : ∀ w ∈ trail, c.ign w = true)
+    (X0 : List TextLayout.Str) (xl pre post : TextLayout.Str) (P : List Piece)
+    (hX : (PreExpand.step (PreExpand.runPre false preL).1 l0).2 = X0 ++ [xl])
+    (hpre : pre = unlines (PreExpand.runPre false preL).2 ++ (unlines X0 ++ xl))
+    (hpost : post = unlines (PreExpand.run (PreExpand.step (PreExpand.runPre false preL).1 l0).1 postL))
+    (hE : segPre o false 0 pre (wsChars trail ++ (eol cr ++ post)) = .ok (P, false, 0))
+    (hO : segPre o false 0 pre (eol cr ++ post) = .ok (P, false, 0))
+    (ho : o (eol cr ++ post) = none) :
+    source c o (preL ++ (l0 ++ (wsChars trail ++ crChars cr)) :: postL) = source c o (preL ++ (l0 ++ crChars cr) :: postL) := by
+  have h1 := (preexpand_trailing false preL postL l0 (wsChars trail ++ crChars cr) (ws_line_allws trail cr)).1
+  have h2 := (preexpand_trailing false preL postL l0 (crChars cr) (by simpa [wsChars] using ws_line_allws [] cr)).1
+  unfold source PreExpand.preExpand
+  rw [h1, h2, hX, joinNL_nl _ (by simp [PreExpand.appendLast_append]), joinNL_nl _ (by simp [PreExpand.appendLast_append])]
+  simp only [unlines_append, unlines_appendLast]
+  have := text_layout_trailing c o hnb pre post cr trail ht P hE hO ho
+  rw [hpre, hpost, ← crChars_nl cr] at this
+  simpa [List.append_assoc] using this
+
+
+open NemoVerif.TextLayout in
+/-- Generated-data fact: the statements the stand-alone `...` is rewritten to (`Generated.C13.expansionLines`) contain no line break and
+    begin with no blank (rebuilt on every run). -/
+theorem expansion_ok : ExpansionOK := by
+  intro e he
+  simp only [PreExpand.expansion, Generated.C13.expansionLines, List.mem_map, List.mem_cons, List.mem_nil_iff, or_false] at he
+  obtain ⟨s, hs, rfl⟩ := he
+  rcases hs with rfl | rfl | rfl | rfl | rfl | rfl <;> decide
+
+open NemoVerif.TextLayout in
+/-- Raw file content: uniform scaling of the indentation of every line but the first (each line's leading run of blanks × k, k ≥ 1) through
+    the `...` pre-parsing expansion: the erased token stream (what the LALR parser can see) is the same, errors included.
+    Hypotheses: the first line is not an (indented) `...` statement; no line contains a line break (they come from `split("\n")`); on a
+    `...` line what follows the dots does not begin with a blank (`ScaleLineOK` - the region of the open finding
+    `eol-comment-pre-expansion-v2`, where the rest stays behind with ONE blank); `ExpansionOK` = `expansion_ok`; `ScaleOK` about the two
+    tokenizers on the EXPANDED text. -/
+theorem source_scale (c : Cfg) (k : Nat) (hk : 1 ≤ k) (o o' : Oracle) (hx : ExpansionOK) (l0 : TextLayout.Str) (ls : List TextLayout.Str)
+    (h0 : (∀ ch ∈ l0, ch ≠ '\n') ∧ PreExpand.matchDots l0 = none)
+    (hls : ∀ l ∈ ls, ScaleLineOK l)
+    (hok : ScaleOK k o o' (joinNL (PreExpand.preExpand (l0 :: ls)) ++ ['\n'])) :
+    (seg o' false 0 (joinNL (PreExpand.preExpand (l0 :: ls.map (scaleText k true))) ++ ['\n'])).bind (layoutE c) =
+      (seg o false 0 (joinNL (PreExpand.preExpand (l0 :: ls)) ++ ['\n'])).bind (layoutE c) := by
+  have hE : PreExpand.preExpand (l0 :: ls) = l0 :: PreExpand.run (PreExpand.step false l0).1 ls := by
+    simp [PreExpand.preExpand, PreExpand.run, step_snd_of_noDots false l0 h0.2]
+  have hE' : PreExpand.preExpand (l0 :: ls.map (scaleText k true)) = scaleLines k (l0 :: PreExpand.run (PreExpand.step false l0).1 ls) := by
+    simp [PreExpand.preExpand, PreExpand.run, step_snd_of_noDots false l0 h0.2, run_scale k hk hx ls hls, scaleLines]
+  have hnl : ∀ l ∈ l0 :: PreExpand.run (PreExpand.step false l0).1 ls, ∀ ch ∈ l, ch ≠ '\n' := by
+    intro l hl
+    rcases List.mem_cons.1 hl with h | h
+    · subst h; exact h0.1
+    · exact run_noNL hx ls (fun l' hl' => (hls l' hl').1) _ l h
+  rw [hE] at hok
+  rw [hE, hE', joinNL_nl _ (by simp [scaleLines]), joinNL_nl _ (by simp), ← scaleText_unlines k _ hnl]
+  rw [joinNL_nl _ (by simp)] at hok
+  exact text_layout_scale c k hk o o' _ hok
+
+
+open NemoVerif.TextLayout in
+/-- … with the generated-data hypothesis discharged for the current source tree. -/
+theorem source_scale_current (c : Cfg) (k : Nat) (hk : 1 ≤ k) (o o' : Oracle) (l0 : TextLayout.Str) (ls : List TextLayout.Str)
+    (h0 : (∀ ch ∈ l0, ch ≠ '\n') ∧ PreExpand.matchDots l0 = none)
+    (hls : ∀ l ∈ ls, ScaleLineOK l)
+    (hok : ScaleOK k o o' (joinNL (PreExpand.preExpand (l0 :: ls)) ++ ['\n'])) :
+    (seg o' false 0 (joinNL (PreExpand.preExpand (l0 :: ls.map (scaleText k true))) ++ ['\n'])).bind (layoutE c) =
+      (seg o false 0 (joinNL (PreExpand.preExpand (l0 :: ls)) ++ ['\n'])).bind (layoutE c) :=
+  source_scale c k hk o o' expansion_ok l0 ls h0 hls hok
+
+open NemoVerif.TextLayout in
+/-- non-vacuity of `source_scale`: file `a⏎·a` (toy tokenizer); a `...` line with nothing behind the dots is fine too -/
+example : ((∀ ch ∈ ['a'], ch ≠ '\n') ∧ PreExpand.matchDots ['a'] = none) ∧ (∀ l ∈ [[' ', 'a'], [' ', ' ', '.', '.', '.']], ScaleLineOK l) ∧
+    ScaleOK 2 toyOracle toyOracle (joinNL (PreExpand.preExpand (['a'] :: [[' ', 'a']])) ++ ['\n']) := by
+  refine ⟨⟨by decide, by decide⟩, ?_, toyOracle_scaleOK 2 _⟩
+  intro l hl
+  simp only [List.mem_cons, List.mem_nil_iff, or_false] at hl
+  rcases hl with rfl | rfl
+  · exact ⟨by decide, by intro sp rest h; simp [PreExpand.matchDots, PreExpand.splitSpaces, PreExpand.dropDots] at h⟩
+  · refine ⟨by decide, ?_⟩
+    intro sp rest h
+    simp [PreExpand.matchDots, PreExpand.splitSpaces, PreExpand.dropDots] at h
+    obtain ⟨_, rfl⟩ := h
+    simp
+
+open NemoVerif.TextLayout in
+open NemoVerif.NumberedLines (lstrip) in
+/-- Raw file content: an end-of-line comment appended (after ignored blanks) to an ordinary line `l` - outside docstrings (`hd`), first
+    non-blank character not a quote, not a `...` statement: the lines where the line-based pre-parsing expansion does not look at the line end;
+    the other lines are the region of the open finding `eol-comment-pre-expansion-v2` - does not change the token stream. -/
+theorem source_comment_eol (c : Cfg) (o : Oracle) (hnb : NoBlankStart o) (hnh : NoHashStart o) (preL postL : List TextLayout.Str)
+    (l cmt : TextLayout.Str) (gap : List Ws) (hg : ∀ w ∈ gap, c.ign w = true) (hc : ∀ ch ∈ cmt, ch ≠ '\n')
+    (hd : (PreExpand.runPre false preL).1 = false)
+    (hl : lstrip l ≠ []) (hq : (lstrip l).head? ≠ some '"') (hm : PreExpand.matchDots l = none)
+    (pre post : TextLayout.Str) (P : List Piece) (ty v : String)
+    (hpre : pre = unlines (PreExpand.runPre false preL).2 ++ l)
+    (hpost : post = unlines (PreExpand.run false postL))
+    (hE : segPre o false 0 pre (wsChars gap ++ ('#' :: cmt ++ '\n' :: post)) = .ok (P ++ [.tok ty v], false, 0))
+    (hO : segPre o false 0 pre ('\n' :: post) = .ok (P ++ [.tok ty v], false, 0)) :
+    source c o (preL ++ (l ++ (wsChars gap ++ '#' :: cmt)) :: postL) = source c o (preL ++ l :: postL) := by
+  have hx : wsChars gap ++ '#' :: cmt = [] ∨ ((wsChars gap ++ '#' :: cmt).head? ≠ some '.' ∧ wsChars gap ++ '#' :: cmt ≠ []) := by
+    right
+    cases gap with
+    | nil => simp [wsChars]
+    | cons w g => cases w <;> simp [wsChars, wsChar]
+  have s1 := step_plain l (wsChars gap ++ '#' :: cmt) hl hq hm hx
+  have s2 := step_plain l [] hl hq hm (Or.inl rfl)
+  rw [List.append_nil] at s2
+  unfold source PreExpand.preExpand
+  rw [PreExpand.run_append, PreExpand.run_append]
+  simp only [PreExpand.run, hd, s1, s2]
+  rw [joinNL_nl _ (by simp), joinNL_nl _ (by simp)]
+  simp only [unlines_append, unlines]
+  have := text_layout_comment_eol c o hnb hnh pre post cmt hc gap hg P ty v hE hO
+  rw [hpre, hpost] at this
+  simpa [List.append_assoc] using this
+
+
+open NemoVerif.TextLayout in
+/-- non-vacuity of `source_comment_eol`: file `a⏎a`, comment `·#c` appended to the first line (toy tokenizer). -/
+example : (PreExpand.runPre false ([] : List TextLayout.Str)).1 = false ∧ NumberedLines.lstrip ['a'] ≠ [] ∧ (NumberedLines.lstrip ['a']).head? ≠ some '"' ∧
+    PreExpand.matchDots ['a'] = none ∧
+    segPre toyOracle false 0 (unlines (PreExpand.runPre false ([] : List TextLayout.Str)).2 ++ ['a'])
+      (wsChars [.sp] ++ ('#' :: ['c'] ++ '\n' :: unlines (PreExpand.run false [['a']]))) = .ok ([] ++ [.tok "NAME" "a"], false, 0) ∧
+    segPre toyOracle false 0 (unlines (PreExpand.runPre false ([] : List TextLayout.Str)).2 ++ ['a'])
+      ('\n' :: unlines (PreExpand.run false [['a']])) = .ok ([] ++ [.tok "NAME" "a"], false, 0) := by
+  refine ⟨rfl, by decide, by decide, by decide, by rfl, by rfl⟩
+
 /-! ## Error wrapper -/
 
 /-- With the repaired formatter: whatever exception the parser raised (any class deriving from `Exception`, with
@@ -247,6 +772,24 @@ theorem errwrap_total (e : Exc) (he : e.isException = true) (version path : Stri
       "Unsupported colang version " ++ version ++ " for file: ", "", by simp⟩
   · exact ⟨"Error while parsing Colang file: " ++ path ++ "\n" ++ formatTotal e lines, by simp [hv, he, format],
       "Error while parsing Colang file: ", "\n" ++ formatTotal e lines, by simp [String.append_assoc]⟩
+
+/-- Generated-data fact (rebuilt on every run from the static scan of the two parsers' `raise` / `assert` statements and of lark's exception
+    classes): every class that a raise site names derives from `Exception` - none can slip past the loader's `except Exception`.
+    A new raise site with a `BaseException`-only class breaks this obligation. -/
+theorem raise_sites_are_exceptions : ∀ s ∈ Generated.C13Raise.sites, s.isException = true := by
+  decide
+
+/-- `errwrap_total` instantiated at every raise site of the two parsers: whichever site fires, with whatever `line` / `column` attributes
+    and text, on whatever file content, the loader (with the repaired formatter) raises `ColangParsingError` naming the file. -/
+theorem errwrap_total_raise_sites (s : Generated.C13Raise.Site) (hs : s ∈ Generated.C13Raise.sites) (line column : Attr) (str : String)
+    (version path : String) (lines : List String) :
+    ∃ msg, wrap true (some (excOfSite s line column str)) version path lines = .raised cpe msg ∧ ∃ a b, msg = a ++ path ++ b :=
+  errwrap_total (excOfSite s line column str) (raise_sites_are_exceptions s hs) version path lines
+
+/-- non-vacuity: the scan found the 1.0 parser's decorated `Exception` and lark's `UnexpectedToken`. -/
+example : (⟨"nemoguardrails/colang/v1_0/lang/colang_parser.py", "ColangParser.parse", "raise", "Exception", true, false⟩ : Generated.C13Raise.Site) ∈ Generated.C13Raise.sites ∧
+    (⟨"<lark.exceptions>", "", "engine", "UnexpectedToken", true, false⟩ : Generated.C13Raise.Site) ∈ Generated.C13Raise.sites := by
+  decide
 
 /-- The pinned formatter raises instead (finite witness: a `DedentError` has no `line`). -/
 theorem errwrap_as_is_counterexample :
